@@ -1334,6 +1334,35 @@ class KInterp:
             if isinstance(a0, list) or isinstance(a1, list):
                 return s.vmap(st, ins.dst, [a0, a1], pick, len(a0) if isinstance(a0, list) else len(a1))
             return s.setv(st, ins.dst, pick(st.case, a0, a1))
+        m = re.match(r'llvm\.x86\.avx(2|512)\.ps(r|l)lv\.q(\.256|\.512)?$', name)
+        if m:
+            # per-element shift by a per-element count (constant counts only)
+            v, k = args
+            opn = 'lshr' if m.group(2) == 'r' else 'shl'
+
+            def sh1(case, x, kk):
+                kk = s.tokv(case, s.resolve(case, kk))
+                if not kk.isconst():
+                    raise Undecided('vector shift by a symbolic count')
+                if kk.cval() >= 64:
+                    return [(case, const(0, 64))]
+                return s._shift1(case, opn, x, const(kk.cval(), 64))
+            return s.vmap(st, ins.dst, [v, k], sh1, len(v))
+        m = re.match(r'llvm\.x86\.avx512\.permvar\.di\.(256|512)$', name)
+        if m:
+            a_, idx_ = args
+            out = []
+            for i in range(len(a_)):
+                kk = idx_[i]
+                if kk is None:
+                    out.append(None)
+                    continue
+                kk = s.tokv(st.case, s.resolve(st.case, kk))
+                if not kk.isconst():
+                    raise Undecided('permute with a symbolic index')
+                out.append(a_[kk.cval() % len(a_)])
+            st.env[ins.dst] = out
+            return
         m = re.match(r'llvm\.s(min|max)\.(v\d+)?i64$', name)
         if m:
             # signed minimum / maximum per 64-bit element: partition on the signed comparison of the bit patterns
